@@ -4,6 +4,7 @@ import (
 	"fmt"
 	"go/token"
 	"go/types"
+	"math/big"
 	"os"
 	"path/filepath"
 	"sort"
@@ -302,6 +303,7 @@ func (g *Gen) VerifyFunction(ct *Contract) *FuncResult {
 	var fe *FnEnc
 	for iter := 0; iter < 10; iter++ {
 		s := NewSess(g, ct.Mode)
+		s.setUses(ct.Uses)
 		fe = &FnEnc{g: g, s: s, fn: fn, ct: ct, vals: map[ssa.Value]Val{}, sites: map[string]int{}, modsets: modsets, modrefs: modrefs,
 			inlined: map[string]bool{}, havocked: map[string]bool{}, props: ct.Props, guard: "true", mem: NewMem()}
 		fe.top = fe
@@ -639,8 +641,11 @@ func (s *Sess) finalize() {
 			if s.provingLemma != nil && ax.Lemma && !axiomBefore(g.db, ax, s.provingLemma) {
 				continue
 			}
+			if ax.Manual && !s.uses[ax.Name] {
+				continue
+			}
 			syms := specSyms(g.db, ax.E)
-			rel := false
+			rel := s.uses[ax.Name] // named explicitly (also the way to get a lemma without spec symbols)
 			for _, sy := range syms {
 				if s.usedSpec[sy] {
 					rel = true
@@ -704,7 +709,7 @@ func specSyms(db *SpecDB, e Expr) []string {
 			if _, ok := db.UFuns[x.Fn]; ok {
 				seen[x.Fn] = true
 			}
-			if d, ok := db.Defines[x.Fn]; ok {
+			if d, ok := db.Defines[x.Fn]; ok && !seen[x.Fn] {
 				seen[x.Fn] = true
 				walk(d.Body)
 			}
@@ -744,6 +749,7 @@ func specSyms(db *SpecDB, e Expr) []string {
 func (g *Gen) VerifyLemma(ax *Axiom) *Obligation {
 	s := NewSess(g, "int")
 	s.provingLemma = ax
+	s.setUses(ax.Uses)
 	fe := &FnEnc{g: g, s: s, sites: map[string]int{}}
 	fe.top = fe
 	ev := &Eval{s: s, g: g, mem: NewMem(), old: NewMem(), env: map[string]Val{}, bound: map[string]Val{}, fe: fe, calleePkg: ax.PkgPath}
@@ -759,6 +765,69 @@ func (g *Gen) VerifyLemma(ax *Axiom) *Obligation {
 		o.Src += "; axiom errors: " + strings.Join(s.axiomErrs, "; ")
 	}
 	return o
+}
+
+// VerifyLemmaAll: a lemma is one obligation, or - with [induct=k] - a base case (k = 0) and a step
+// (the statement at a fixed k0 >= 0 assumed, proved at k0 + 1); the other variables stay quantified.
+func (g *Gen) VerifyLemmaAll(ax *Axiom) []*Obligation {
+	if ax.Induct == "" {
+		return []*Obligation{g.VerifyLemma(ax)}
+	}
+	q, ok := ax.E.(*EQuant)
+	idx := -1
+	if ok && q.Forall {
+		for i, v := range q.Vars {
+			if v == ax.Induct && (q.Sorts[i] == "" || q.Sorts[i] == "int") {
+				idx = i
+			}
+		}
+	}
+	if idx < 0 {
+		o := g.VerifyLemma(ax)
+		o.Goal, o.Src = "false", "induct="+ax.Induct+": the lemma is not a forall over that integer variable"
+		return []*Obligation{o}
+	}
+	var rest Expr = q.Body
+	if len(q.Vars) > 1 {
+		nq := &EQuant{Forall: true, Pats: q.Pats, Body: q.Body}
+		for i := range q.Vars {
+			if i != idx {
+				nq.Vars = append(nq.Vars, q.Vars[i])
+				nq.Sorts = append(nq.Sorts, q.Sorts[i])
+			}
+		}
+		rest = nq
+	}
+	mk := func(tag string, bind func(s *Sess, ev *Eval) Val, hyp bool) *Obligation {
+		s := NewSess(g, "int")
+		s.provingLemma = ax
+		s.setUses(ax.Uses)
+		fe := &FnEnc{g: g, s: s, sites: map[string]int{}}
+		fe.top = fe
+		ev := &Eval{s: s, g: g, mem: NewMem(), old: NewMem(), env: map[string]Val{}, bound: map[string]Val{}, fe: fe, calleePkg: ax.PkgPath}
+		if hyp {
+			s.funDecl = append(s.funDecl, "(declare-const ind_k Int)")
+			s.assert("(>= ind_k 0)")
+			ev.bound[ax.Induct] = Val{Term: "ind_k"}
+			s.assert(ev.evalAssume(rest))
+		}
+		ev.bound[ax.Induct] = bind(s, ev)
+		t := ev.evalBool(rest)
+		o := &Obligation{Name: "lemma:" + ax.Name + "." + tag, Func: "lemma " + ax.Name, Kind: "lemma", Goal: t, Prefix: len(s.lines), Sess: s, Src: tag + " case of: " + ax.Src, Props: ax.Props}
+		if len(fe.bindErrs) > 0 {
+			o.Goal = "false"
+			o.Src = strings.Join(fe.bindErrs, "; ")
+		}
+		s.finalize()
+		if len(s.axiomErrs) > 0 {
+			o.Goal = "false"
+			o.Src += "; axiom errors: " + strings.Join(s.axiomErrs, "; ")
+		}
+		return o
+	}
+	base := mk("base", func(s *Sess, ev *Eval) Val { return Val{K: big.NewInt(0)} }, false)
+	step := mk("step", func(s *Sess, ev *Eval) Val { return Val{Term: "(+ ind_k 1)"} }, true)
+	return []*Obligation{base, step}
 }
 
 // mayAlloc: the in-repo struct types (by mangled sort id) that fn can allocate
